@@ -189,6 +189,9 @@ func (f *fixture) mk(s scen) interfaces.Transaction {
 
 // sequential reference verdicts: against the state before and after the block
 func (f *fixture) refVerdicts(s scen) (before, after string) {
+	if s.Kind == "checkpoint" {
+		return "equal", "equal"
+	}
 	f.freshState(s.Kind == "voting")
 	before = verdict(f.mk(s))
 	st := f.freshState(s.Kind == "voting")
@@ -197,7 +200,53 @@ func (f *fixture) refVerdicts(s scen) (before, after string) {
 	return
 }
 
+// checkpointScenario: a checkpoint snapshot taken at the block boundary is written by the
+// checkpoint file goroutine while the next block is processed. The bytes written must be those
+// of the state at snapshot time (deep copy), whatever the interleaving.
+func (f *fixture) checkpointScenario(s scen) *vsched.Scenario {
+	return &vsched.Scenario{
+		Name:     s.Name,
+		Bound:    s.Bound,
+		MaxSteps: 20000,
+		Setup: func() ([]string, []func(), func(*vsched.Exec) (string, *vsched.Fail)) {
+			st := f.freshState(false)
+			ar := &state.Arbiters{State: st, ChainParams: f.params}
+			cp := state.NewCheckpoint(ar)
+			snap := cp.Snapshot()
+			if snap == nil {
+				evid.Fatalf("harness: CheckPoint.Snapshot returned nil")
+			}
+			ref := new(bytes.Buffer)
+			if err := snap.Serialize(ref); err != nil {
+				evid.Fatalf("harness: snapshot serialize: %v", err)
+			}
+			blk := f.block()
+			var got []byte
+			names := []string{"block", "save"}
+			bodies := []func(){
+				func() { st.ProcessBlock(blk, nil, 0) },
+				func() {
+					b := new(bytes.Buffer)
+					snap.Serialize(b)
+					got = b.Bytes()
+				},
+			}
+			check := func(x *vsched.Exec) (string, *vsched.Fail) {
+				if !bytes.Equal(got, ref.Bytes()) {
+					return "differs", &vsched.Fail{Signature: "C40|checkpoint-snapshot-not-isolated",
+						What: "the checkpoint snapshot taken before the block serialises to different bytes when it is written after the next block was processed: the snapshot shares mutable state with the live DPoS state"}
+				}
+				return "equal", nil
+			}
+			return names, bodies, check
+		},
+	}
+}
+
 func (f *fixture) scenario(s scen, before, after string) *vsched.Scenario {
+	if s.Kind == "checkpoint" {
+		return f.checkpointScenario(s)
+	}
 	return &vsched.Scenario{
 		Name:     s.Name,
 		Bound:    s.Bound,
@@ -257,6 +306,7 @@ func scenarios(r *evid.Run) []scen {
 	// 9: refused before (7 free), allowed after (10 free): both verdicts must be observed
 	out = append(out, scen{Name: "returnvotes-9-b2", Kind: "returnvotes", Value: 9, Bound: 2})
 	out = append(out, scen{Name: "voting-9-b2", Kind: "voting", Value: 9, Bound: 2})
+	out = append(out, scen{Name: "checkpoint-save-b1", Kind: "checkpoint", Bound: 1})
 	qb := 1
 	if r.Thorough() {
 		qb = 2
@@ -280,6 +330,16 @@ func freeRun(f *fixture, n int) {
 			go func() { defer wg.Done(); _ = len(st.GetProducers()); _ = st.GetActivityV2Producers() }()
 			wg.Wait()
 		}
+		// checkpoint snapshot written while the next block is processed
+		st := f.freshState(false)
+		cp := state.NewCheckpoint(&state.Arbiters{State: st, ChainParams: f.params})
+		snap := cp.Snapshot()
+		blk := f.block()
+		var wg sync.WaitGroup
+		wg.Add(2)
+		go func() { defer wg.Done(); st.ProcessBlock(blk, nil, 0) }()
+		go func() { defer wg.Done(); snap.Serialize(new(bytes.Buffer)) }()
+		wg.Wait()
 	}
 	fmt.Println("free-run done")
 }
